@@ -105,6 +105,16 @@ def judge(v, rec, c, obs, flags_name, flags, start, end, exp, encrypt):
             v.violation("an accepted --encrypt Atlas job stores no key file", rep)
 
 
+def gzip_first_member(data):
+    import zlib
+    try:
+        d = zlib.decompressobj(wbits=31)
+        d.decompress(data)
+        return data[:len(data) - len(d.unused_data)]
+    except Exception:
+        return data
+
+
 def run(tier):
     v = common.Verdict(PID, tier, "model_checking")
     b = common.build()
@@ -144,6 +154,46 @@ def run(tier):
         shutil.rmtree(wd, ignore_errors=True)
         return rec, c, obs, fname, flags, window, exp, enc
 
+    # --- a download that breaks off once and would succeed when asked again: if the tool carries on, every demand still holds
+    once_recs = [r for r in t.records if r["fault"]["kind"] == "cut" and r["cli"] and r["auth"] == "digest" and r.get("keyOk", True)]
+    seen_env = set()
+
+    def one_once(args):
+        rec, var = args
+        c = ar.build_case(dict(rec, fault={"at": rec["fault"]["at"], "kind": "cut"}), pool, var + (v.seed - 1) * 13)
+        k = c.names[rec["fault"]["at"] - 1][0]
+        body = c.payloads[k]
+        # cut at a member boundary of a multi-member archive where there is one, else in the middle
+        first = len(gzip_first_member(body))
+        c.sc.faults[k] = ("cut", first if 0 < first < len(body) else max(1, len(body) // 2), "once")
+        wd = tempfile.mkdtemp(prefix="w-", dir=root)
+        obs = ar.run_case(b, c, wd)
+        exp = ar.expected_outputs(b, c, [], wd) if obs["rc"] == 0 else None
+        shutil.rmtree(wd, ignore_errors=True)
+        return rec, c, obs, exp
+    owork = []
+    for r in once_recs:
+        key = (r["n"], r["fault"]["at"])
+        if key not in seen_env:
+            seen_env.add(key)
+            owork += [(r, var) for var in (3, 7)]
+    for rec, c, obs, exp in common.parallel_map(one_once, owork):
+        v.count()
+        if obs["rc"] == 0:
+            ok_rec = dict(rec, fault={"at": 0, "kind": "none"})
+            judge(v, ok_rec, c, obs, "plain (after an interrupted download that succeeded on a second attempt)", [], None, None, exp, False)
+    # --- the default window where the local UTC offset changed a few days ago
+    import time as _t
+    for shift, (ob, oa) in enumerate(((-18000, -14400), (7200, 3600))):
+        rec0 = [r for r in recs if r["cli"] and r["n"] == 1 and r["auth"] == "digest"][0]
+        c = ar.build_case(rec0, pool, 40 + shift)
+        wd = tempfile.mkdtemp(prefix="tz-", dir=root)
+        tzp = os.path.join(wd, "zone.tzif")
+        ar.make_tzif(tzp, _t.time() - 3 * 86400, ob, oa)
+        obs = ar.run_case(b, c, wd, extra_env={"TZ": tzp})
+        v.count()
+        judge(v, rec0, c, obs, "plain, local zone with an offset change 3 days ago", [], None, None, None, False)
+        shutil.rmtree(wd, ignore_errors=True)
     traces, owners = [], []
     for rec, c, obs, fname, flags, window, exp, enc in common.parallel_map(one, work):
         v.count()
